@@ -142,6 +142,16 @@ def hooks(ctx: Ctx):
         if not defined and not slots:
             ctx.proved("R20.3", site, "default reconstruction protocol (no custom reduce/state hooks, no __slots__)")
             continue
+        if slots and not any(hk in defined for hk in ("__getstate__", "__reduce__", "__reduce_ex__")):
+            # copyreg._reduce_ex (pickle protocols 0 and 1): "a class that defines __slots__ without defining __getstate__
+            # cannot be pickled" - TypeError for every instance
+            sl = ci.attrs.get("__slots__")
+            nonempty = not (isinstance(sl, (ast.Tuple, ast.List)) and not sl.elts)
+            ctx.decide(not nonempty, "R20.3", site, "empty __slots__",
+                       f"{cname} declares non-empty __slots__ but no __getstate__: pickling an instance with protocol 0 or 1 raises TypeError "
+                       f"(\"a class that defines __slots__ without defining __getstate__ cannot be pickled\")",
+                       where=f"space_packet_parser/{ci.relpath}:{ci.node.lineno}")
+            continue
         # a custom hook is not wrong by itself; decide it by emulating the default copy protocol on a model object
         verdict = emulate_copy(ctx, cname, defined, slots)
         fn = ci.methods[defined[0]] if defined else None
